@@ -44,6 +44,7 @@ type Call struct {
 	Docs  []string    `json:"docs,omitempty"` // time_series.labels, hex
 	Tag   string      `json:"tag,omitempty"`  // group step: "held" = the INSERT that was kept waiting inside the client while the members queued up
 	M     int         `json:"m,omitempty"`    // group step: the member that was being sent when the INSERT reached the client
+	Node  string      `json:"node,omitempty"` // the ClickHouse node whose connection carried the INSERT ("" = n1)
 }
 
 type backend struct {
@@ -63,7 +64,8 @@ type backend struct {
 
 var be = &backend{tsOK: true, splOK: true}
 
-type fakeClient struct{}
+// one connection per configured node (round 7: two nodes n1, n2 whose DATABASE has the same name)
+type fakeClient struct{ n string }
 
 func colU8(d proto.ColInput) []uint8 {
 	switch c := d.(type) {
@@ -119,7 +121,7 @@ func colStr(d proto.ColInput) []string {
 	panic(fmt.Sprintf("unexpected string column %T", d))
 }
 
-func (fakeClient) Do(ctx context.Context, q ch.Query) error {
+func (fc fakeClient) Do(ctx context.Context, q ch.Query) error {
 	if strings.Contains(q.Body, "INSERT INTO time_series") {
 		// a slow ClickHouse: while this INSERT waits for its answer the service collects the rows of the requests
 		// that arrive in ONE pending buffer (InsertServiceV2.Run is blocked in fetchLoopIteration)
@@ -133,20 +135,23 @@ func (fakeClient) Do(ctx context.Context, q ch.Query) error {
 			<-gate
 			be.mtx.Lock()
 			defer be.mtx.Unlock()
-			return be.record(q, true)
+			return be.record(q, true, fc.n)
 		}
 	}
 	be.mtx.Lock()
 	defer be.mtx.Unlock()
-	return be.record(q, false)
+	return be.record(q, false, fc.n)
 }
 
-func (be *backend) record(q ch.Query, held bool) error {
+func (be *backend) record(q ch.Query, held bool, on string) error {
 	cols := map[string]proto.ColInput{}
 	for _, in := range q.Input {
 		cols[in.Name] = in.Data
 	}
 	c := Call{}
+	if on != node.Node {
+		c.Node = on
+	}
 	switch {
 	case strings.Contains(q.Body, "INSERT INTO time_series"):
 		c.Table = "time_series"
@@ -220,6 +225,17 @@ func (fakeClient) Close() error { return nil }
 
 var node = model.DataDatabasesMap{ClokiBaseDataBase: cfgbase.ClokiBaseDataBase{Node: "n1", Name: "qryn", WriteTimeout: 5}}
 
+// round 7: a second independent server (no cluster) whose database has the SAME name, as in a default configuration with two
+// database_data entries. Every request names its node (X-CH-DSN); without the header the registry would pick one at random.
+var node2 = model.DataDatabasesMap{ClokiBaseDataBase: cfgbase.ClokiBaseDataBase{Node: "n2", Name: "qryn", WriteTimeout: 5}}
+
+func nodeName(n string) string {
+	if n == "" {
+		return node.Node
+	}
+	return n
+}
+
 func prodCache() *numbercache.Cache[uint64] {
 	c, ok := plugin.GoCache.(*numbercache.Cache[uint64])
 	if !ok {
@@ -239,10 +255,11 @@ func setup() *mux.Router {
 	config.Cloki.Setting.SYSTEM_SETTINGS.ChannelsSample = 1
 	config.Cloki.Setting.SYSTEM_SETTINGS.ChannelsTimeSeries = 1
 	service.CreateColPools(8)
-	factory := ch_wrapper.IChClientFactory(func() (ch_wrapper.IChClient, error) { return fakeClient{}, nil })
+	factory := ch_wrapper.IChClientFactory(func() (ch_wrapper.IChClient, error) { return fakeClient{n: node.Node}, nil })
+	factory2 := ch_wrapper.IChClientFactory(func() (ch_wrapper.IChClient, error) { return fakeClient{n: node2.Node}, nil })
 	p := &plugin.QrynWriterPlugin{ServicesObject: plugin.ServicesObject{
-		DatabaseNodeMap: []model.DataDatabasesMap{node},
-		Dbv3Map:         []ch_wrapper.IChClientFactory{factory},
+		DatabaseNodeMap: []model.DataDatabasesMap{node, node2},
+		Dbv3Map:         []ch_wrapper.IChClientFactory{factory, factory2},
 	}}
 	p.CreateStaticServiceRegistry(*config.Cloki.Setting, &impl.DevInsertServiceFactory{})
 	// the registry the plugin built, with the time_series service of the node behind a counting pass-through (shared.go)
@@ -258,9 +275,15 @@ func setup() *mux.Router {
 // push sends one Loki JSON push with the given scripted outcomes and returns the status and the
 // INSERTs that reached the client because of it.
 func push(r *mux.Router, body string, tsOK, splOK bool) (int, []Call) {
+	return pushTo(r, "", body, tsOK, splOK)
+}
+
+// pushTo: the push names the node that is to store it (X-CH-DSN; "" = n1)
+func pushTo(r *mux.Router, on string, body string, tsOK, splOK bool) (int, []Call) {
 	return collect(tsOK, splOK, func() int {
 		req := httptest.NewRequest("POST", "/loki/api/v1/push", bytes.NewReader([]byte(body)))
 		req.Header.Set("Content-Type", "application/json")
+		req.Header.Set("X-CH-DSN", nodeName(on))
 		w := httptest.NewRecorder()
 		r.ServeHTTP(w, req)
 		return w.Code
@@ -283,6 +306,7 @@ func begin(r *mux.Router, st Step) *flight {
 	f := &flight{pw: pw, code: make(chan int, 1)}
 	req := httptest.NewRequest("POST", "/loki/api/v1/push", pr)
 	req.Header.Set("Content-Type", "application/json")
+	req.Header.Set("X-CH-DSN", node.Node)
 	go func() {
 		w := httptest.NewRecorder()
 		r.ServeHTTP(w, req)
@@ -411,6 +435,7 @@ type Step struct {
 	TsOK    bool     `json:"ts_ok"`
 	SplOK   bool     `json:"spl_ok"`
 	Retry   bool     `json:"retry,omitempty"` // same body as the previous push (a client retry)
+	Node    string   `json:"node,omitempty"`  // push: the node named by X-CH-DSN ("" = n1, "n2": the second server, same database name)
 	// group (shared.go): the pushes Members[0], Members[1], ... arrive one after the other while ClickHouse is slow to answer the
 	// time_series INSERT of Members[0]: the series rows of Members[1..] wait in ONE pending buffer of the insert service and go
 	// out in ONE INSERT. TsOK0: outcome of the INSERT of Members[0]; TsOK: outcome of the shared INSERT; samples per member.
@@ -854,7 +879,7 @@ func runHistCase(r *mux.Router, c *HCase) {
 				resetCache()
 				c.Obs = append(c.Obs, StepObs{})
 			case "push":
-				code, calls := push(r, bodyOf(*st), st.TsOK, st.SplOK)
+				code, calls := pushTo(r, st.Node, bodyOf(*st), st.TsOK, st.SplOK)
 				c.Obs = append(c.Obs, StepObs{Status: code, Calls: calls})
 			case "bad":
 				code, calls := push(r, strings.TrimSuffix(bodyOf(*st), "]}")+badTail, true, true)
@@ -948,6 +973,15 @@ func runHist(f *hx.Flags, out *hx.Out) {
 	for k := 0; k < reps(f.N); k++ {
 		for _, p := range retryPatterns() {
 			c := genRetryHist(rnd, id, p)
+			id++
+			runHistCase(r, &c)
+			out.Put(c)
+		}
+	}
+	// the same series pushed to two servers whose database has the same name (nodes.go)
+	for k := 0; k < reps(f.N); k++ {
+		for _, p := range nodePatterns() {
+			c := genNodesHist(rnd, id, p)
 			id++
 			runHistCase(r, &c)
 			out.Put(c)
